@@ -60,11 +60,31 @@ static void fill_residue(int i, unsigned char *tail, size_t n, const unsigned ch
 	}
 }
 
+/* What the decoder was last used for must not matter either: before every decode of the datagram under test, one of
+   two different earlier datagrams (another client's query, another answer) is decoded, alternating with the residue
+   index, so that the decoder's own scratch memory (stack locals, statics) differs between the runs compared. */
+static unsigned char histq[2][600], hista[2][1200];
+static size_t histqlen[2], histalen[2];
+static unsigned long long hist_calls;
+
+static void decode_history(int i)
+{
+	struct query q0;
+	static char sink[8192];
+	if (!histqlen[0]) return;
+	memset(&q0, 0, sizeof(q0));
+	dns_decode(NULL, 0, &q0, QR_QUERY, (char *)histq[i & 1], histqlen[i & 1]);
+	memset(&q0, 0, sizeof(q0));
+	dns_decode(sink, sizeof(sink), &q0, QR_ANSWER, (char *)hista[i & 1], histalen[i & 1]);
+	hist_calls += 2;
+}
+
 static void run_one(int qr, const unsigned char *d, size_t dlen, int i, struct obs *o,
 		    const unsigned char *prev, size_t prevlen, size_t outcap)
 {
 	struct query q;
 	unsigned char *b = bufs[i];
+	decode_history(i);
 	memcpy(b, d, dlen);
 	fill_residue(i, b + dlen, 4096 + 600 < BUFSZ - dlen ? 4096 + 600 : BUFSZ - dlen, prev, prevlen, dlen);
 	memset(&q, 0, sizeof(q));
@@ -226,6 +246,11 @@ int main(int argc, char **argv)
 	prevlen = mk_query(prev, "0abcdzSECRETDATAOFANOTHERCLIENTaaaaaaaaaaaaaaaaaaaaaaaaaaa.bbbbbbbbbbbbbbbbbbbbbbbbbbbbbbbbbbbbbbbbbbbbbbbbbbbbbbbbbbb.t.example.com", T_NULL_, 1);
 	memcpy(prev + prevlen, "\xc0\x0c\x00\x0a\x00\x01\x00\x00\x00\x00\x00\x10SIXTEENBYTESDATA", 28); prevlen += 28;
 
+	histqlen[0] = mk_query(histq[0], "zFIRSTOTHERCLIENTSNAMEfirstotherclientsname0123456789.ccccccccccccccccccccccccccccccc.t.example.com", 16, 0);
+	histqlen[1] = mk_query(histq[1], "1qqqqSECONDOTHERCLIENTSDATAqqqqqqqqqqqqqqqqqqqqqqqqqqqqqqqqq.dddddddddddddddddddddddddddddddddddddddddddddd.t.example.com", T_NULL_, 1);
+	histalen[0] = mk_answer(hista[0], sizeof(hista[0]), T_CNAME_, 120);
+	histalen[1] = mk_answer(hista[1], sizeof(hista[1]), T_MX_, 200);
+
 	for (r = 0; r < rounds; r++) {
 		char qn[300];
 		size_t n, k;
@@ -319,6 +344,7 @@ int main(int argc, char **argv)
 	DRV_E(evals * NRES);
 	DRV_X("datagrams", evals);
 	DRV_X("datagrams_with_differing_decodes", differing);
+	DRV_X("history_decodes_interleaved", hist_calls);
 	for (i = 0; i < 32 && classes[i].k; i++) {
 		static const char *cn[] = {"error", "rejected", "decoded"};
 		int c;
